@@ -63,30 +63,76 @@ def operator_classes(repo):
     return out
 
 
-def rpn_orders(repo, clsname, operands):
-    """emission order of get_rpn over all leaf / non-leaf combinations -> set of tuples like ('X1','X2','OP')."""
-    fn = repo.func(EXPR, clsname + ".get_rpn")
+def ctor_fields(repo, cname):
+    """the attribute each constructor parameter of an Operator class is stored in, in parameter order (inherited __init__ included)."""
+    ms = _class_methods(repo, cname)
+    if "__init__" not in ms:
+        raise AnchorError("%s has no __init__ in expr.py" % cname)
+    init = ms["__init__"][1]
+    out = []
+    for a in init.args.args[1:]:
+        tg = [unparse(t)[5:] for s in walk(init) if isinstance(s, ast.Assign) and isinstance(s.value, ast.Name) and s.value.id == a.arg
+              for t in s.targets if isinstance(t, ast.Attribute) and dotted(t.value) == "self"]
+        if len(tg) != 1:
+            raise ExtractError("%s.__init__: parameter %s is not stored in exactly one attribute" % (cname, a.arg))
+        out.append(tg[0])
+    return out
+
+
+def rpn_programs(repo, clsname):
+    """abstract interpretation of <clsname>.get_rpn for every leaf / non-leaf combination of its operands.
+
+    A leaf operand k has the index 'Xk' in leaf_ndx_map; a non-leaf operand k has the two-entry program ['Xk.a', 'Xk.b'] in rpn_map.
+    -> fn, operands (constructor order), variable (operands whose leafness get_rpn asks for), {combo: dict(got, want, mutated, aliased)}
+    where `mutated` lists the operands whose program in rpn_map was changed by the call and `aliased` those whose list object IS the new program."""
     import itertools
+    fn = repo.func(EXPR, clsname + ".get_rpn")
+    operands = ctor_fields(repo, clsname)
     res = {}
+    asked = set()
     for combo in itertools.product([True, False], repeat=len(operands)):
         leafness = dict(zip(operands, combo))
 
         def call_hook(name, node, args, kwargs, st, ex, recv):
-            m = re.match(r"^self\.(_\w+)\.is_leaf$", name or "")
-            if m:
-                return leafness[m.group(1)]
+            if isinstance(node.func, ast.Attribute) and node.func.attr == "is_leaf" and not args:
+                r = recv if recv is not None else ex.ev(node.func.value, st)
+                if isinstance(r, Opaque) and r.text.startswith("self.") and r.text[5:] in leafness:
+                    asked.add(r.text[5:])
+                    return leafness[r.text[5:]]
             return NotImplemented
         ex = SymExec(call_hook=call_hook)
-        rpn_map = {"self.%s" % o: ["X%d" % (i + 1)] for i, o in enumerate(operands)}
-        leaf_map = {"self.%s" % o: "X%d" % (i + 1) for i, o in enumerate(operands)}
-        outs = ex.run(fn, {"rpn_map": rpn_map, "leaf_ndx_map": leaf_map, "self": Opaque("self")})
+        ex.unroll_opaque = True
+        prog = {o: ["X%d.a" % (i + 1), "X%d.b" % (i + 1)] for i, o in enumerate(operands)}
+        rpn_map = {"self.%s" % o: list(prog[o]) for o, lf in leafness.items() if not lf}
+        leaf_map = {"self.%s" % o: "X%d" % (i + 1) for i, o in enumerate(operands) if leafness[o]}
+        try:
+            outs = [o for o in ex.run(fn, {"rpn_map": rpn_map, "leaf_ndx_map": leaf_map, "self": Opaque("self")}) if o.raised is None]
+        except ExtractError as e:
+            if "not in abstract dict" in str(e):
+                # looks an operand up in the wrong table for this combination (KeyError at run time)
+                res[combo] = dict(got=("KeyError: %s" % e,), want=None, mutated=[], aliased=[])
+                continue
+            raise
         if len(outs) != 1:
             raise ExtractError("%s.get_rpn: %d paths for leafness %s" % (clsname, len(outs), combo))
-        got = outs[0].env["rpn_map"].get("self")
+        final = outs[0].env["rpn_map"]
+        got = final.get("self")
         if not isinstance(got, list):
             raise ExtractError("%s.get_rpn did not store rpn_map[self]" % clsname)
-        res[combo] = tuple("OP" if isinstance(x, Opaque) else x for x in got)
-    return fn, res
+        want = []
+        for i, o in enumerate(operands):
+            want += ["X%d" % (i + 1)] if leafness[o] else prog[o]
+        nonleaf = [o for o in operands if not leafness[o]]
+        res[combo] = dict(got=tuple("OP" if isinstance(x, Opaque) else x for x in got), want=tuple(want + ["OP"]),
+                          mutated=[o for o in nonleaf if final.get("self." + o) != prog[o]],
+                          aliased=[o for o in nonleaf if final.get("self." + o) is got])
+    variable = [o for o in operands if o in asked]
+    # operands get_rpn never asks about are leaves by construction (bounds of an inequality): only their leaf case is meaningful
+    res = {c: r for c, r in res.items() if all(lf or o in asked for o, lf in zip(operands, c))}
+    for r in res.values():
+        if r["want"] is None:
+            r["want"] = ("<operands in constructor order>", "OP")
+    return fn, operands, variable, res
 
 
 def py_calls(name, node, args, kwargs, st, ex, recv):
@@ -121,6 +167,73 @@ def py_calls(name, node, args, kwargs, st, ex, recv):
     return NotImplemented
 
 
+def _type_tag(v):
+    if isinstance(v, bool):
+        return "bool"
+    if isinstance(v, int):
+        return "int"
+    if isinstance(v, float):
+        return "float"
+    if isinstance(v, str):
+        return "str"
+    return "<expression node>"
+
+
+def native_env(repo):
+    """the module's sets of native types as lists of type names ({float, int} -> ['float', 'int'])."""
+    env = {}
+    for nm in ("native_numeric_types", "native_boolean_types"):
+        try:
+            v = repo.module_assign(EXPR, nm)
+        except AnchorError:
+            continue
+        if isinstance(v, (ast.Set, ast.Tuple, ast.List)) and all(isinstance(e, ast.Name) for e in v.elts):
+            env[nm] = [e.id for e in v.elts]
+    return env
+
+
+def native_hook(inner=None):
+    """call hook deciding type(x) / isinstance(x, T) for python numbers (and expression nodes: never a native type)."""
+    def hook(name, node, args, kwargs, st, ex, recv):
+        if name == "type" and len(args) == 1:
+            return _type_tag(args[0])
+        if name == "isinstance" and len(args) == 2 and isinstance(args[1], (list, tuple)) and all(isinstance(t, str) for t in args[1]):
+            tag = _type_tag(args[0])
+            return tag in args[1] or (tag == "bool" and "int" in args[1])
+        if inner is not None:
+            return inner(name, node, args, kwargs, st, ex, recv)
+        return NotImplemented
+    return hook
+
+
+def eval_native(repo, fn, env, hook=None):
+    """value returned by a small function for concrete python inputs (single path; 'raise' if that path raises)."""
+    e = dict(native_env(repo))
+    e.update(env)
+    ex = SymExec(call_hook=native_hook(hook))
+    outs = ex.run(fn, e)
+    if len(outs) != 1:
+        raise ExtractError("%s: %d paths for the concrete inputs %s" % (fn.name, len(outs), env))
+    return "raise" if outs[0].raised is not None else outs[0].ret
+
+
+def method_of(repo, cdef, name):
+    """method `name` of a class; a class-level alias `name = other_method` is followed."""
+    seen = set()
+    while name not in seen:
+        seen.add(name)
+        for n in cdef.body:
+            if isinstance(n, ast.FunctionDef) and n.name == name:
+                n._rel = getattr(cdef, "_rel", EXPR)
+                n._qual = "%s.%s" % (cdef.name, name)
+                return n
+        for n in cdef.body:
+            if isinstance(n, ast.Assign) and isinstance(n.value, ast.Name) and any(isinstance(t, ast.Name) and t.id == name for t in n.targets):
+                name = n.value.id
+                break
+    return None
+
+
 def run(repo, chk):
     py_enum, enum_cls = enum_table(repo)
     hpp = repo.source(HPP)
@@ -149,26 +262,29 @@ def run(repo, chk):
     chk.floor("R-C15-1", 18 * 3)
 
     # ---------------------------------------------------------------- R-C15-2 opcode semantics
-    fnb, orders = rpn_orders(repo, "BinaryOperator", ["_operand1", "_operand2"])
-    chk.fn(fnb)
-    for combo, got in sorted(orders.items()):
-        chk.expect(got == ("X1", "X2", "OP"), "R-C15-2", "BinaryOperator.get_rpn emits operand1, operand2, opcode [leaf=%s]" % (combo,), loc(fnb), expected=("X1", "X2", "OP"), found=got)
-    fnu, orders = rpn_orders(repo, "UnaryOperator", ["_operand"])
-    for combo, got in sorted(orders.items()):
-        chk.expect(got == ("X1", "OP"), "R-C15-2", "UnaryOperator.get_rpn emits operand, opcode [leaf=%s]" % (combo,), loc(fnu), found=got)
-    fni, orders = rpn_orders(repo, "IfElseOperator", ["_if_arg", "_then_arg", "_else_arg"])
-    for combo, got in sorted(orders.items()):
-        chk.expect(got == ("X1", "X2", "X3", "OP"), "R-C15-2", "IfElseOperator.get_rpn emits condition, then, else, opcode [leaf=%s]" % (combo,), loc(fni), found=got)
-    fnq = repo.func(EXPR, "InequalityOperator.get_rpn")
-    for leaf in (True, False):
-        def ch(name, node, args, kwargs, st, ex, recv, leaf=leaf):
-            if name == "self._body.is_leaf":
-                return leaf
-            return NotImplemented
-        ex = SymExec(call_hook=ch)
-        outs = ex.run(fnq, {"rpn_map": {"self._body": ["BODY"]}, "leaf_ndx_map": {"self._body": "BODY", "self._lb": "LB", "self._ub": "UB"}, "self": Opaque("self")})
-        got = tuple("OP" if isinstance(x, Opaque) else x for x in outs[0].env["rpn_map"].get("self", []))
-        chk.expect(got == ("BODY", "LB", "UB", "OP"), "R-C15-2", "InequalityOperator.get_rpn emits body, lb, ub, opcode [leaf=%s]" % leaf, loc(fnq), found=got)
+    # emission order of every get_rpn(self, rpn_map, leaf_ndx_map): the operands in constructor order (leaf -> its index, non-leaf -> its whole
+    # program), then the opcode; decided by abstract interpretation over all leaf / non-leaf combinations
+    what = {"BinaryOperator": "operand1, operand2, opcode", "UnaryOperator": "operand, opcode", "IfElseOperator": "condition, then, else, opcode",
+            "InequalityOperator": "body, lb, ub, opcode"}
+    n_variable = {"BinaryOperator": 2, "UnaryOperator": 1, "IfElseOperator": 3, "InequalityOperator": 1}
+    rpn_info = {}
+    for cname_, cdef_ in sorted(repo.classes(EXPR).items()):
+        g_ = [n for n in cdef_.body if isinstance(n, ast.FunctionDef) and n.name == "get_rpn" and len(n.args.args) == 3]
+        if not g_ or cname_ == "Operator":
+            continue
+        fnr, operands_, variable_, progs = rpn_programs(repo, cname_)
+        chk.fn(fnr)
+        rpn_info[cname_] = (fnr, operands_, progs)
+        if cname_ in n_variable:
+            chk.expect(variable_ == operands_[:n_variable[cname_]], "R-C15-2", "%s.get_rpn distinguishes leaf and non-leaf for each of its expression operands" % cname_, loc(fnr),
+                       "a leaf has no program in rpn_map and a non-leaf no index in leaf_ndx_map", expected=operands_[:n_variable[cname_]], found=variable_)
+        for combo, r in sorted(progs.items()):
+            shown = tuple(lf for o, lf in zip(operands_, combo) if o in variable_)
+            chk.expect(r["got"] == r["want"], "R-C15-2", "%s.get_rpn emits %s [leaf=%s]" % (cname_, what.get(cname_, "its operands in constructor order, opcode"), shown if len(shown) != 1 else shown[0]),
+                       loc(fnr), expected=r["want"], found=r["got"])
+    for cname_ in what:
+        if cname_ not in rpn_info:
+            raise AnchorError("%s.get_rpn vanished" % cname_)
     # C++ branches: pops are in reverse emission order
     for cname, (base, op, cdef) in sorted(ops.items()):
         if op is None or op.upper() not in branches:
@@ -212,7 +328,7 @@ def run(repo, chk):
             ev = repo.func(EXPR, "InequalityOperator.evaluate")
             chk.expect("self._lb.value <= body_val <= self._ub.value" in unparse(ev), "R-C15-2", "InequalityOperator.evaluate is lb <= body <= ub", loc(ev))
     chk.expect("stack[stack_ndx]=res" in cxx.norm(body) and "++stack_ndx" in cxx.norm(body), "R-C15-2", "_evaluate pushes the result of every operation", CPP)
-    chk.floor("R-C15-2", 4 + 2 + 8 + 2 + 18)
+    chk.floor("R-C15-2", 4 + 4 + 2 + 8 + 2 + 18)
 
     # ---------------------------------------------------------------- R-C15-3 derivative rules
     D = sp.Symbol("der", real=True)
@@ -411,7 +527,7 @@ def run(repo, chk):
     # (a) wherever the operators of another expression are merged into an operator list, operators already present are skipped (a shared
     #     sub-expression is listed once: reverse differentiation visits every listed operator once);
     # (b) get_rpn builds each operator's program in a NEW list: an operand's program may be needed again by another parent.
-    dag_rules(repo, chk)
+    dag_rules(repo, chk, rpn_info)
 
     # ---------------------------------------------------------------- R-C15-9 "changing values": an assignment always reaches the compiled object
     # Leaf._value is only a Python-side cache; the solver writes the live value into the compiled object without updating the cache, so the
@@ -578,7 +694,7 @@ def fold_rules(repo, chk):
     chk.floor("R-C15-7", 24)
 
 
-def dag_rules(repo, chk):
+def dag_rules(repo, chk, rpn_info):
     t = repo.tree(EXPR)
     n_a = 0
     for fn in [n for n in ast.walk(t) if isinstance(n, ast.FunctionDef)]:
@@ -609,27 +725,18 @@ def dag_rules(repo, chk):
                        "is propagated twice (e = x + 1; e*(e + y) has d/dx doubled)", expected="if oper not in <operators already present>", found=norm(loop))
     if n_a < 1:
         chk.error("R-C15-8: no loop merging the operators of another expression found in expr.py (anchors moved?)")
-    n_b = 0
-    for fn in [n for n in ast.walk(t) if isinstance(n, ast.FunctionDef) and n.name == "get_rpn"]:
-        owner = getattr(getattr(fn, "_parent", None), "name", "?")
-        k = 0
-        for a in [x for x in walk(fn) if isinstance(x, ast.Assign)]:
-            tg = [unparse(x) for x in a.targets]
-            if "rpn_map[self]" not in tg:
+    # (b) decided on the abstract runs of get_rpn (rpn_programs): for every combination with a non-leaf operand, the program stored for the
+    #     operator is a list object of its own and the operand's program in rpn_map is what it was before the call
+    for owner, (fn, operands, progs) in sorted(rpn_info.items()):
+        for combo, r in sorted(progs.items()):
+            nonleaf = [o for o, lf in zip(operands, combo) if not lf]
+            if not nonleaf:
                 continue
-            v = a.value
-            if isinstance(v, ast.Subscript) and unparse(v.value) == "rpn_map":
-                n_b += 1
-                fn._rel = EXPR
-                k += 1
-                chk.bad("R-C15-8", "%s.get_rpn (branch %d) builds the program of an operator in a new list" % (owner, k), loc(fn, a),
-                        "rpn_map[self] aliases the operand's list and the following append/extend/insert mutates it: a second use of that operand "
-                        "(shared sub-expression, or the exponent in the power rule's derivative) reads a corrupted program", expected="list(rpn_map[operand])", found=norm(a))
-            elif any(isinstance(x, ast.Subscript) and unparse(x.value) == "rpn_map" for x in ast.walk(v)):
-                n_b += 1
-                k += 1
-                chk.ok("R-C15-8", "%s.get_rpn (branch %d) builds the program of an operator in a new list" % (owner, k), loc(EXPR, a))
-    chk.floor("R-C15-8", 1 + 6)
+            chk.expect(not r["mutated"] and not r["aliased"], "R-C15-8", "%s.get_rpn builds the program of an operator in a new list [non-leaf: %s]" % (owner, ", ".join(nonleaf)), loc(fn),
+                       "rpn_map[self] aliases the operand's list or the operand's list is mutated (append/extend/insert): a second use of that operand "
+                       "(shared sub-expression, or the exponent in the power rule's derivative) reads a corrupted program", expected="list(rpn_map[operand]) left untouched",
+                       found="operand program changed: %s; same list object: %s" % (r["mutated"] or "-", r["aliased"] or "-"))
+    chk.floor("R-C15-8", 1 + 3 + 1 + 7 + 1)
 
 WITNESSES = [
     dict(name="setter-skips-unchanged-cache", file=EXPR, old="    def value(self, val):\n        self._value = val\n", new="    def value(self, val):\n        if val == self._value:\n            return\n        self._value = val\n", rule="R-C15-9"),
